@@ -65,6 +65,11 @@ def check_c13(ctx):
                         seed=ctx.seed * 100 + 13, timeout=2400)
     scn = [{"id": i + 1, "decls": with_teams(complete(g["decls"]), i), "seed": ctx.seed, "starts": [], "text": False, "opts": i % 2 == 0, "mermaid": i % 3 == 0, "project": i % 4 == 1}
            for i, g in enumerate(gen)]
+    # every block shape: an if with or without else, every loop kind, a labelled group, a `one of` with two or three
+    # choices, a block in a block; every body the placeholder `...`, an action, a call or a return; a call before / after
+    shapes_gen = core.generate(ctx, "SeqShapeGen", "GenSeqShape.cfg", timeout=600)
+    for g in shapes_gen:
+        scn.append({"id": len(scn) + 1, "decls": g["decls"], "seed": ctx.seed, "starts": ["A <- e1"], "text": False, "opts": False, "shape": g["shape"]})
     events, _ = core.vh_sharded(ctx, "seqdiag", scn, timeout=3000)
     # trace ids are per (program, start endpoint) and must be unique across shards
     remap, n = {}, 0
@@ -111,7 +116,7 @@ def check_c13(ctx):
         core.add_violation(ctx, sig, what, {"family": "seqdiag", "scenario": dict(by_scn[b["scn"]], starts=[b["start"]]),
                                             "trace": [e for e in traces[t] if e["e"] != "begin"][:60]})
     cov = {"states": mc.distinct, "transitions": mc.generated, "traces_validated_against_impl": len(begins),
-           "trace_events": nev, "programs": len(scn), "distinct_models_x_start": len(shapes),
+           "trace_events": nev, "programs": len(scn), "block_shapes_enumerated": len(shapes_gen), "distinct_models_x_start": len(shapes),
            "errors_returned": sum(1 for e in events if e["e"] == "error"),
            "diagrams_with_blackboxes": sum(1 for b in begins.values() if b.get("cut")),
            "diagrams_with_grouping": sum(1 for b in begins.values() if b.get("group")),
@@ -120,6 +125,8 @@ def check_c13(ctx):
     return core.finish(ctx, "model_checking", cov, [
         "models are TLC-generated call graphs over three applications x two endpoints with calls (incl. self calls) anywhere in nested "
         "if/else/loop/group/one-of blocks and returns anywhere; every endpoint is used as the start; calls to undefined endpoints belong to C20",
+        "block shapes enumerated by SeqShapeGen.tla: one endpoint = [call] + block + [call], the block an if (with / without else), every loop kind, a labelled group, "
+        "a one-of with two or three choices, or a block in a block; every body `...`, an action, a call or a return",
         "default labels (endpoint name on the arrow); every start of every second program is also drawn with up to two other endpoints as "
         "blackboxes and, for half of those, grouped by the attribute `team`; no ~human/~cron participants",
         "the PlantUML reader fails closed: an unrecognised line is an infrastructure error, not a verdict",
